@@ -140,7 +140,7 @@ def r_iter_skip_loop(sig, body, arg):
                     return k
         return -1
     n = 0
-    pat = re.compile(r"for\s+&(\w+)\s+in\s+(\w+)\.iter\(\)\.skip\(")
+    pat = re.compile(r"for\s+&?(\w+)\s+in\s+(\w+)\.iter\(\)\.skip\(")
     while True:
         m = pat.search(body)
         if not m:
@@ -722,6 +722,15 @@ def r_tail_let(sig, body, arg):
     return sig, body[:k + 1] + "\n        let vx_ret = " + expr + ";\n        vx_ret\n    " + body[end:], 1
 
 
+def r_float_scale63(sig, body, arg):
+    """D4: the float-to-integer conversions `f64::floor(A * B) as u64` where one factor is
+    `(twoe63 as f64)` become a call of the uninterpreted external function vx_scale63(<other factor>)
+    (floating point is outside the verified text)."""
+    pat = re.compile(r"f64::floor\(\s*(\w+)\s*\*\s*\(twoe63 as f64\)\s*\)\s*as\s+u64|f64::floor\(\s*\(twoe63 as f64\)\s*\*\s*(\w+)\s*\)\s*as\s+u64")
+    body, n = pat.subn(lambda m: "vx_scale63(%s)" % (m.group(1) or m.group(2)), body)
+    return sig, body, n
+
+
 RULES = {
     "Self": r_self,
     "Generic": r_generic,
@@ -749,6 +758,7 @@ RULES = {
     "RevRange": r_rev_range,
     "IterLoop": r_iter_loop,
     "TailLet": r_tail_let,
+    "FloatScale63": r_float_scale63,
 }
 RULE_IDS = {"Self": "R1", "Generic": "R1", "BoolAssign": "R2", "ForUnderscore": "R3",
             "BitVecIndex": "R6"}
